@@ -199,7 +199,7 @@ func streamC17(c *Ctx) {
 				cb := func(id string) error {
 					out = append(out, id)
 					if stop > 0 && len(out) >= stop {
-						return errStop
+						return clover.VerifErrStopIteration // a consumer that stopped must not be called again
 					}
 					return nil
 				}
